@@ -711,6 +711,10 @@ def tensor_merge(arr: ndarray, ins: ndarray, pos: Sequence[int],
     ins_chars = string.ascii_letters[:ins_ndim*rank]
     arr_chars = string.ascii_letters[ins_ndim*rank:(ins_ndim+arr_ndim)*rank]
     out_chars = ''
+    if len(pos) != ins_ndim:
+        raise ValueError(f'Expected pos to be a sequence of length {ins_ndim} (the number of '
+                         + f'tensor factors of ins), not length {len(pos)}')
+
     # Normalize possibly negative positions before sorting by them
     norm_pos = []
     for p in pos:
